@@ -190,3 +190,104 @@ func verifH_c09_pair_identity() {
 	}
 	verifReach("end")
 }
+
+// ---- G2 drivers in the same exact-multiple model (value: x.y = low 256 bits, x.x[0] = high 64 bits) --------
+
+func dl2Val(p *twistPoint) []byte {
+	out := make([]byte, 0, 40)
+	out = dlPut64(out, p.x.x[0])
+	for i := 3; i >= 0; i-- {
+		out = dlPut64(out, p.x.y[i])
+	}
+	return out
+}
+
+func dl2Set(p *twistPoint, v []byte, finite uint64) {
+	p.x = gfP2{gfP{dlBE64(v[0:8])}, gfP{dlBE64(v[32:40]), dlBE64(v[24:32]), dlBE64(v[16:24]), dlBE64(v[8:16])}}
+	p.y = gfP2{}
+	p.z = gfP2{gfP{}, gfP{finite}}
+	p.t = gfP2{gfP{}, gfP{finite}}
+}
+
+func verifModel_dl_twistPoint_Add(c *twistPoint, a, b *twistPoint) {
+	fin := (a.z.y[0] | b.z.y[0]) & 1
+	dl2Set(c, verifWideAdd(dl2Val(a), dl2Val(b)), fin)
+}
+
+func verifModel_dl_twistPoint_Double(c *twistPoint, a *twistPoint) {
+	v := dl2Val(a)
+	d := make([]byte, 40)
+	for i := 0; i < 40; i++ {
+		d[i] = v[i] << 1
+		if i+1 < 40 {
+			d[i] |= v[i+1] >> 7
+		}
+	}
+	dl2Set(c, d, a.z.y[0]&1)
+}
+
+func verifModel_dl_twistPoint_SetInfinity(c *twistPoint) {
+	c.x, c.y, c.z, c.t = gfP2{}, gfP2{}, gfP2{}, gfP2{}
+}
+
+func verifModel_dl_NewTwistGenerator() *twistPoint {
+	return &twistPoint{x: gfP2{gfP{}, gfP{1}}, z: gfP2{gfP{}, gfP{1}}, t: gfP2{gfP{}, gfP{1}}}
+}
+
+func verifH_c09_scalarmult_g2() {
+	which := verifParam("which") // 0: fresh receiver; 1: receiver aliases the operand; 2: base-point multiplication
+	k := verifBytes("k", 32)
+	if !verifSymbolic() {
+		p, err := new(G2).ScalarBaseMult([]byte{0, 0, 0, 0, 0, 0, 0, 0, 0, 0, 0, 0, 0, 0, 0, 0, 0, 0, 0, 0, 0, 0, 0, 0, 0, 0, 0, 0, 0, 0, 0, 5})
+		if err != nil {
+			verifReach("end")
+			return
+		}
+		base := p
+		if which == 2 {
+			base = Gen2
+		}
+		ref := &G2{NewTwistPoint()}
+		for _, b := range k {
+			for bit := 7; bit >= 0; bit-- {
+				ref.p.Double(ref.p)
+				if b>>uint(bit)&1 == 1 {
+					ref.Add(ref, base)
+				}
+			}
+		}
+		var got *G2
+		switch which {
+		case 0:
+			got, _ = new(G2).ScalarMult(p, k)
+		case 1:
+			got = new(G2).Set(p)
+			got.ScalarMult(got, k)
+		default:
+			got, _ = new(G2).ScalarBaseMult(k)
+		}
+		verifAssert(verifEqBytes(got.Marshal(), ref.Marshal()), "G2 scalar multiplication agrees with double-and-add (fresh, aliased and base-point forms)")
+		verifReach("end")
+		return
+	}
+	a := &G2{verifModel_dl_NewTwistGenerator()}
+	var r *G2
+	var err error
+	switch which {
+	case 0:
+		r, err = new(G2).ScalarMult(a, k)
+	case 1:
+		r, err = a.ScalarMult(a, k)
+	default:
+		r, err = new(G2).ScalarBaseMult(k)
+	}
+	verifAssert(err == nil && r != nil, "a 32-byte scalar is accepted")
+	want := append(make([]byte, 8), k...)
+	verifAssert(verifWideEq(dl2Val(r.p), want), "the result is exactly [k]Q")
+	zero := true
+	for _, b := range k {
+		zero = verifAll(zero, b == 0)
+	}
+	verifAssert((r.p.z.y[0] == 0) == zero, "the point at infinity exactly for k = 0")
+	verifReach("end")
+}
